@@ -2,7 +2,7 @@ SPECIFICATION Spec
 CONSTANTS
   NF = 2
   Mods = {"A", "B"}
-  BindOptions = {{}, {"int"}, {"float", "len"}}
+  BindOptions = {{}, {"int=user"}, {"float=none", "len=user"}, {"int=zero", "float=user", "len=none"}}
   Faults = {"none", "py_before", "guppy_before", "py_after", "guppy_after", "bad_return"}
   AllowNest = TRUE
   MaxCompiles = 2
